@@ -74,6 +74,23 @@ Theorem C17_unflatten_rejects_unterminated : forall jk t bytes,
 Proof. exact c17_unflatten_rejects. Qed.
 Print Assumptions C17_unflatten_rejects_unterminated.
 
+(* Unflatten through a DataUnflattener that is a window onto a larger array and has already been read from (run_pre): bytes
+   outside the window never influence status, value or bytes consumed; an unterminated remainder is rejected with the
+   String and the read position unchanged; the read position never leaves the window *)
+Theorem C17_unflatten_window_local : forall jk fx s a1 a2 win ps,
+  takeN win a1 = takeN win a2 ->
+  step1 M TH PG OV jk fx s (OUnflattenW a1 win ps) = step1 M TH PG OV jk fx s (OUnflattenW a2 win ps).
+Proof. exact c17_unflatten_window_local. Qed.
+Print Assumptions C17_unflatten_window_local.
+Theorem C17_unflatten_window_rejects : forall jk s arena win ps,
+  inv M s -> lenN arena < LIM -> nulfree (win_remaining arena win (run_pre arena win ps)) ->
+  step1 M TH PG OV jk true s (OUnflattenW arena win ps) = (s, R1Int (w_result false (run_pre arena win ps))).
+Proof. exact c17_unflatten_window_rejects. Qed.
+Print Assumptions C17_unflatten_window_rejects.
+Theorem C17_window_consumed_le : forall arena win ps, snd (read_cstr_w arena win (run_pre arena win ps)) <= win.
+Proof. exact window_consumed_le. Qed.
+Print Assumptions C17_window_consumed_le.
+
 (* F9 (domain boundary, not a finding): an embedded NUL truncates the flatten/unflatten round trip *)
 Theorem C17_nul_string_truncates : forall jk s t a b,
   inv M s -> abs M s = a ++ 0 :: b -> nulfree a -> slen M s + 1 < LIM -> inv M t ->
